@@ -29,6 +29,7 @@ func main() {
 		rule    = flag.String("rule", "", "run a single rule and print its obligations")
 		noSelf  = flag.Bool("noselftest", false, "skip the mutant self-tests (development only)")
 		verbose = flag.Bool("v", false, "print every obligation")
+		outDir  = flag.String("out", "", "directory for evidence files (default <verif>/evidence)")
 	)
 	flag.Parse()
 	if *verif == "" {
@@ -42,6 +43,9 @@ func main() {
 		}
 	}
 	seed, _ := strconv.Atoi(os.Getenv("VERIF_SEED"))
+	if *outDir == "" {
+		*outDir = filepath.Join(*verif, "evidence")
+	}
 	start := time.Now()
 
 	prog, err := core.Load(*repo, nil)
@@ -208,14 +212,14 @@ func main() {
 		WallS:       time.Since(start).Seconds(),
 		Violations:  len(violations),
 	}
-	evPath := filepath.Join(*verif, "evidence", pr.ID+".json")
+	evPath := filepath.Join(*outDir, pr.ID+".json")
 	if err := core.WriteJSON(evPath, ev); err != nil {
 		fmt.Fprintf(os.Stderr, "pqlint: writing evidence: %v\n", err)
 		os.Exit(2)
 	}
 
 	if len(violations) > 0 {
-		replay := filepath.Join(*verif, "evidence", pr.ID+".replay.json")
+		replay := filepath.Join(*outDir, pr.ID+".replay.json")
 		_ = core.WriteJSON(replay, map[string]any{"property": pr.ID, "violations": violations})
 		for _, o := range violations {
 			fmt.Println(o.Line())
